@@ -26,6 +26,7 @@ Inductive prog :=
 | PRaise (e : exn)                       (* an exception is raised here *)
 | PNotReady (rest : prog)                (* deferred.not_ready() *)
 | PReport (p : priority) (rest : prog)   (* reports.emit_report(p, ...) *)
+| PIfAwaiting (d : N) (pt pe : prog)     (* if d.is_awaiting: pt else: pe   (the flag is read by deferred.py) *)
 | PCall (body rest : prog)               (* a function call: `return` inside ends the call only *)
 | PWith (c : cm) (body rest : prog).     (* with c: body ; rest *)
 
@@ -88,6 +89,7 @@ Fixpoint eval (p : prog) (s : mstate) : outcome * mstate :=
                   | None => eval rest s'
                   end
       end
+  | PIfAwaiting d pt pe => if flags (g s) d then eval pt s else eval pe s
   | PCall body rest =>
       match eval body s with
       | (ORaise e, s') => (ORaise e, s')
@@ -125,7 +127,7 @@ Fixpoint raised_in (p : prog) : list exn :=
   | PEnd | PReturn => []
   | PRaise e => [e]
   | PNotReady r | PReport _ r => raised_in r
-  | PCall b r => raised_in b ++ raised_in r
+  | PIfAwaiting _ a b | PCall a b => raised_in a ++ raised_in b
   | PWith c b r => (match c with CHandle _ (ObjRaises e) => [e] | _ => [] end) ++ raised_in b ++ raised_in r
   end.
 
